@@ -258,69 +258,11 @@ Qed.
 (* ------------------------------------------------------------------ *)
 (* Receiver reuse                                                      *)
 
-(* headers agree on everything the API can report: the profile of a header without the X bit
-   is not observable (Marshal, GetExtension and GetExtensionIDs ignore it) *)
-Definition hdr_equiv (a b : header) : Prop :=
-  version a = version b /\ padding a = padding b /\ extension a = extension b /\ marker a = marker b /\
-  payload_type a = payload_type b /\ sequence_number a = sequence_number b /\ timestamp a = timestamp b /\
-  ssrc a = ssrc b /\ csrc a = csrc b /\ extensions a = extensions b /\
-  (extension a = true -> extension_profile a = extension_profile b).
-
-Definition hdr_res_equiv (x y : res hdr_result) : Prop :=
-  match x, y with
-  | Ok a, Ok b => hdr_equiv (hr_header a) (hr_header b) /\ hr_n a = hr_n b /\
-                  hr_offsets a = hr_offsets b /\ hr_rest a = hr_rest b
-  | Err e1, Err e2 => e1 = e2
-  | Panic, Panic => True
-  | _, _ => False
-  end.
-
-Lemma hdr_equiv_refl h : hdr_equiv h h.
-Proof. unfold hdr_equiv. repeat split; auto. Qed.
-
+(* since repair D26 the result does not depend on the receiver at all: the previous value is not read *)
 Theorem header_unmarshal_reuse : forall prev buf,
-  hdr_res_equiv (header_unmarshal_into prev buf) (header_unmarshal_into empty_header buf).
-Proof.
-  intros prev buf. unfold header_unmarshal_into.
-  destruct buf as [|b0 [|b1 [|s0 [|s1 l4]]]]; try reflexivity.
-  cbv zeta. case_if; [reflexivity|].
-  destruct l4 as [|t0 [|t1 [|t2 [|t3 [|r0 [|r1 [|r2 [|r3 l12]]]]]]]]; try exact I.
-  destruct (read_csrcs _ l12) as [[cs lc]| |]; cbn [bind]; try reflexivity; try exact I.
-  case_if.
-  - destruct lc as [|p0 [|p1 [|e0 [|e1 le]]]]; try reflexivity.
-    case_if; [reflexivity|]. case_if.
-    + destruct (parse_exts _ _ le _ _ [] []) as [[[[exts os] nf] rest]| |]; cbn [bind]; try reflexivity; try exact I.
-      cbn [hdr_res_equiv hr_header hr_n hr_offsets hr_rest]. split; [apply hdr_equiv_refl|auto].
-    + cbn [hdr_res_equiv hr_header hr_n hr_offsets hr_rest]. split; [apply hdr_equiv_refl|auto].
-  - cbn [hdr_res_equiv hr_header hr_n hr_offsets hr_rest]. repeat split; auto.
-    unfold hdr_equiv. cbn [version padding extension marker payload_type sequence_number timestamp ssrc csrc extensions extension_profile]. repeat split; auto. intros Hx. rewrite Hx in E0. discriminate.
-Qed.
-
-Definition pkt_res_equiv (x y : res pkt_result) : Prop :=
-  match x, y with
-  | Ok a, Ok b => hdr_equiv (hdr (pr_packet a)) (hdr (pr_packet b)) /\
-                  payload (pr_packet a) = payload (pr_packet b) /\
-                  padding_size (pr_packet a) = padding_size (pr_packet b) /\
-                  pr_n a = pr_n b /\ pr_offsets a = pr_offsets b
-  | Err e1, Err e2 => e1 = e2
-  | Panic, Panic => True
-  | _, _ => False
-  end.
+  header_unmarshal_into prev buf = header_unmarshal_into empty_header buf.
+Proof. intros prev buf. reflexivity. Qed.
 
 Theorem packet_unmarshal_reuse : forall prev buf,
-  pkt_res_equiv (packet_unmarshal_into prev buf) (packet_unmarshal_into empty_packet buf).
-Proof.
-  intros prev buf. unfold packet_unmarshal_into.
-  pose proof (header_unmarshal_reuse (hdr prev) buf) as H.
-  cbn [hdr empty_packet].
-  destruct (header_unmarshal_into (hdr prev) buf) as [a| |],
-           (header_unmarshal_into empty_header buf) as [b| |]; cbn [hdr_res_equiv] in H; try contradiction;
-    cbn [bind]; try exact H; try exact I.
-  destruct H as (Hh & Hn & Ho & Hr). pose proof Hh as (_ & Hp & _).
-  rewrite Hp, Hn, Hr.
-  destruct (padding (hr_header b)).
-  - case_if; [reflexivity|]. case_if; [reflexivity|].
-    cbn [pkt_res_equiv pr_packet pr_n pr_offsets hdr payload padding_size]. split; [exact Hh|auto].
-  - case_if; [reflexivity|].
-    cbn [pkt_res_equiv pr_packet pr_n pr_offsets hdr payload padding_size]. split; [exact Hh|auto].
-Qed.
+  packet_unmarshal_into prev buf = packet_unmarshal_into empty_packet buf.
+Proof. intros prev buf. unfold packet_unmarshal_into. rewrite (header_unmarshal_reuse (hdr prev) buf). reflexivity. Qed.
